@@ -241,7 +241,13 @@ def threshold_cases(chk, kinds=None):
             [[0x64], scal(n, [(4096, 8192), (32768, 32769), (P - 1, P + 1)])],
             [[0x65], scal(n, [])]]
     out.append(("EM", 1, [len(sigs), 1000, 0, n, list(range(len(sigs))), sigs]))
+    for m in (4096, 6000):        # medium-long recordings with a wholly missing channel next to gappy and complete ones
+        sg = [[[0x61], scal(m, [(100, 250), (m - 200, m)])], [[0x73], [[] for _ in range(m)]], [[0x63], scal(m, [])],
+              [[0x74], [[] for _ in range(m)]]]
+        out.append(("EM", 1, [len(sg), 1000, 0, m, list(range(len(sg))), sg]))
     z3, z9 = [0, 0, 0], [0] * 9
+    for m in (4096, 5000):
+        out.append(("D3", 2, [m, 100, 0, 3, z3, z9, z3, 0, [], [[[0x61], vec(m, 3, [(7, 90)])], [[0x62], [[] for _ in range(m)]], [[0x63], vec(m, 3, [])]]]))
     out.append(("D3", 2, [n, 100, 0, 2, z3, z9, z3, 0, [], [[[0x61], vec(n, 3, [(P - 10, P)])], [[0x62], vec(n, 3, [(0, 1), (P, P + 1)])]]]))
     out.append(("FT", 1, [1, 100, 0, n, z3, z9, z3, [], [[[0x61], vec(n, 9, [(P - 3, P), (P + 1, P + 2)])]]]))
     out.append(("PD", 1, [1, 100, 0, n, [0], [vec(n, 6, [(P - 2, P)])]]))
